@@ -12,13 +12,24 @@ theorem grammar_tied : Gen.SigGrammar.rules = Sig.rules := rfl
 
 theorem entry_tied : Gen.SigGrammar.entry = ["declarationType"] := by decide
 
-/-- `Parse`: run the parser; nil root → error; input not consumed → error; `[]Node` of length
-    one holding a `Type`, else error -/
+/-- `Parse`: a text nested deeper than `MaxDepth` is refused first; then run the parser; nil root → error;
+    input not consumed → error; `[]Node` of length one holding a `Type`, else error -/
 theorem parse_steps :
     Gen.SigGrammar.parseSteps =
-      ["root, rest := typeSignature(parsec.NewScanner(text))", "if root == nil", "if !rest.Endof()",
+      ["if nesting(input) > MaxDepth", "root, rest := typeSignature(parsec.NewScanner(text))", "if root == nil", "if !rest.Endof()",
        "types, ok := root.([]Node)", "if !ok", "err, ok := root.(error)", "if !ok",
        "if len(types) != 1", "constructor, ok := types[0].(Type)", "if !ok"] := by decide
+
+/-- the bound (`Sig.maxDepth`) -/
+theorem max_depth : Gen.SigGrammar.maxDepth = Sig.maxDepth := rfl
+
+/-- `nesting` (`Sig.nestingFrom`): one pass over the bytes; an opening bracket goes one level down and the deepest
+    level is kept; a closing bracket comes back up, but not above the start -/
+theorem nesting_steps :
+    Gen.SigGrammar.nestingSteps =
+      ["depth, deepest := 0, 0", "for i := 0; i < len(input); i++", "i := 0", "i++", "switch input[i]", "case '[', '{', '('",
+       "depth++", "if depth > deepest", "deepest = depth", "case ']', '}', ')'", "if depth > 0", "depth--", "return deepest"] := by
+  decide
 
 /-- the callbacks' indexing, type assertions and constructors (what `Sig.act` transcribes) -/
 theorem callbacks_tied :
